@@ -84,14 +84,14 @@ fn expected_cell(v: &Val, ty: u8, unsigned: bool) -> Option<BinVal> {
             }
         }
         Val::Date(d) => {
-            if ty == 0x0a {
+            if ty == 0x0a && (0..=65535).contains(&d.year()) {
                 Some(date(&d.and_hms_opt(0, 0, 0).unwrap(), true))
             } else {
                 None
             }
         }
         Val::DateTime(d) => {
-            if ty == 0x0c || ty == 0x07 {
+            if (ty == 0x0c || ty == 0x07) && (0..=65535).contains(&d.year()) {
                 Some(date(d, false))
             } else {
                 None
@@ -157,6 +157,9 @@ fn must_accept(v: &Val, ty: u8, unsigned: bool) -> bool {
         Val::Isize(_) | Val::Usize(_) => true,
         Val::Myc(MV::Int(_)) => true,
         Val::Myc(MV::UInt(_)) => ty == 0x08 && unsigned,
+        Val::Dur(d) => d.as_secs() < 839 * 3600,
+        Val::Date(d) => (0..=9999).contains(&d.year()),
+        Val::DateTime(d) => (0..=9999).contains(&d.year()),
         _ => true,
     }
 }
@@ -509,6 +512,12 @@ fn value_palette() -> Vec<Val> {
         Val::Dur(Duration::new(838 * 3600 + 59 * 60 + 59, 999_999_000)),
         Val::Dur(Duration::new(25 * 3600, 0)),
         Val::Dur(Duration::new(86400, 0)),
+        Val::Dur(Duration::new(35 * 86400, 0)),
+        Val::Dur(Duration::new(400 * 86400 + 5, 1000)),
+        Val::Date(NaiveDate::from_ymd_opt(70000, 1, 1).unwrap()),
+        Val::Date(NaiveDate::from_ymd_opt(-1, 12, 31).unwrap()),
+        Val::DateTime(NaiveDate::from_ymd_opt(65536, 1, 1).unwrap().and_hms_opt(1, 2, 3).unwrap()),
+        Val::Date(NaiveDate::from_ymd_opt(10000, 1, 1).unwrap()),
         Val::Dur(Duration::new(34 * 86400, 0)),
         Val::Dur(Duration::new(2 * 86400, 7000)),
         Val::Myc(MV::Time(false, 3, 0, 0, 0, 0)),
